@@ -22,7 +22,7 @@ func main() {
 	}
 	w := out.New(*outDir)
 	defer w.Close()
-	salt := map[string]uint64{"plan": 0x51, "engine": 0x52, "oracle": 0x53, "cli": 0x54, "updown": 0x55}[*mode]
+	salt := map[string]uint64{"plan": 0x51, "engine": 0x52, "oracle": 0x53, "cli": 0x54, "updown": 0x55, "exported": 0x56}[*mode]
 	r := rng.FromEnv(salt)
 	dir, err := os.MkdirTemp("", "verif-sqlite-")
 	if err != nil {
@@ -41,6 +41,8 @@ func main() {
 		runCLI(c)
 	case "updown":
 		runUpDown(c)
+	case "exported":
+		runExported(c)
 	default:
 		fmt.Fprintln(os.Stderr, "unknown mode", *mode)
 		os.Exit(2)
